@@ -144,7 +144,7 @@ def check(ctx):
         okb, errb, fwd = result_return_kinds(body)
         succ_blocks = okb + fwd
         ctx.floor(R4, "success-capable result assignments in %s" % key, len(succ_blocks), 1)
-        good, hit = unreachable_without(body, succ_blocks, removed_edges=ok_edges)
+        good, hit = unreachable_without(body, succ_blocks, removed_edges=ok_edges, flags=True)
         ctx.require(R4, good and ok_edges, where(body, (hit or succ_blocks or [0])[0]),
                     "%s: every non-error result is built after check_status returned Ok" % key, [key, "success-without-2xx"])
         # and the send precedes it (the status checked is this response's): check_status arg derives from send's result
@@ -181,6 +181,8 @@ def check(ctx):
                     "is_recoverable is evaluated on get_acme_type() of the parsed problem document", [POST, "classified-value"])
     for c in pb.calls_to("acmed::http::ValidHttpResponse::json"):
         for t in try_edges(pb, [c.dest["l"]]):
+            if t["adt"].endswith("Poll"):
+                continue            # the Pending arm of an await is not an error edge
             for tgt in t["err"]:
                 r = pb.reachable_flags([tgt])
                 ctx.require(R5, not (set(send_bbs) & r), c.where(), "no send reachable after a problem document that cannot be parsed",
@@ -191,8 +193,8 @@ def check(ctx):
     ctx.floor(R6, "data-builder call in http::post", len(builder), 1)
     ctx.floor(R6, "update_nonce call in http::post", len(upd), 1)
     for c in sends:
-        after = pb.reachable_after(c.bb, removed_nodes=[u.bb for u in upd])
+        after = pb.reachable_after(c.bb, removed_nodes=[u.bb for u in upd], flags=True)
         ctx.require(R6, c.bb not in after, c.where(), "every send -> send cycle crosses update_nonce(endpoint, &response)", [POST, "retry-stale-nonce"])
-        after = pb.reachable_after(c.bb, removed_nodes=[u.bb for u in builder])
+        after = pb.reachable_after(c.bb, removed_nodes=[u.bb for u in builder], flags=True)
         ctx.require(R6, c.bb not in after, c.where(), "every send -> send cycle re-runs the data builder (fresh JWS)", [POST, "retry-same-body"])
     fresh_nonce_rule(ctx, R6)
